@@ -222,10 +222,16 @@ def run_config(config: str, rows):
 def check(tier: str) -> int:
     rep = core.Report("C08", tier)
     rep.assumptions = core.TRUSTED_BASE_COMMON + [
-        "the shape table prims/FastPath.v is a hand-written reading of each fast path (atoms CkIf/Ck/ShieldY/Effect); it is validated row by row against the real operations on stock asyncio, eager task factory and uvloop",
+        "the shape table prims/FastPath.v: 13 rows are regenerated from /repo's source on every run by the fail-closed translator tools/translate_fastpath.py and proved equal to the table (FastPathGenEq.v); all rows are additionally validated against the real operations on stock asyncio, eager task factory and uvloop",
         "functools.reduce delegates its checkpoint to the awaited callback whenever the callback is invoked (documented scope); only the zero-invocation case is a table row",
         "states in which the operation must really wait are governed by C03",
     ]
+    # tie T: regenerate the shapes from the source (fail-closed); a refusal leaves a FastPathGen.v that does not compile
+    import subprocess, sys as _sys
+    env = dict(__import__("os").environ, VERIF_REPO=str(core.REPO))
+    tr = subprocess.run([_sys.executable, str(core.VERIF / "tools" / "translate_fastpath.py")], env=env,
+                        stdout=subprocess.PIPE, stderr=subprocess.STDOUT, text=True)
+    rep.coverage["translator"] = tr.stdout.strip()[-400:]
     proofs_ok = core.proof_stage(rep, "props/C08.v")
     exe = core.build_driver("fastpath", "FastPath")
     rows = sorted(ROWS)
